@@ -63,7 +63,7 @@ static int otherObject(int id) { return id % 4 + 1; }
 
 class MyTypeComparator : public MockNamedValueComparator {
 public:
-    bool isEqual(const void* a, const void* b) CPPUTEST_OVERRIDE { return ((const MyType*)a)->x == ((const MyType*)b)->x; }
+    bool isEqual(const void* a, const void* b) CPPUTEST_OVERRIDE { return ((const MyType*)a)->x == ((const MyType*)b)->x && ((const MyType*)a)->x != 5; }   // the value 5 equals nothing, not even itself (a "no reading" value)
     SimpleString valueToString(const void* a) CPPUTEST_OVERRIDE { return StringFromFormat("MyType(%d)", ((const MyType*)a)->x); }
 };
 class MyTypeCopier : public MockNamedValueCopier {
@@ -72,12 +72,12 @@ public:
 };
 class MyType2Comparator : public MockNamedValueComparator {       // same equality, another text
 public:
-    bool isEqual(const void* a, const void* b) CPPUTEST_OVERRIDE { return ((const MyType*)a)->x == ((const MyType*)b)->x; }
+    bool isEqual(const void* a, const void* b) CPPUTEST_OVERRIDE { return ((const MyType*)a)->x == ((const MyType*)b)->x && ((const MyType*)a)->x != 5; }
     SimpleString valueToString(const void* a) CPPUTEST_OVERRIDE { return StringFromFormat("Second[%d]", ((const MyType*)a)->x); }
 };
 static const double tolPool[4] = { 0.0, 0.0, 0.3, -1.0 };      // index 1: exact match asked for explicitly
 extern "C" {
-static int myTypeEqualC(const void* a, const void* b) { return ((const MyType*)a)->x == ((const MyType*)b)->x; }
+static int myTypeEqualC(const void* a, const void* b) { return ((const MyType*)a)->x == ((const MyType*)b)->x && ((const MyType*)a)->x != 5; }
 static const char* myTypeToStringC(const void* a) { static char buf[32]; snprintf(buf, sizeof buf, "MyType(%d)", ((const MyType*)a)->x); return buf; }
 static void myTypeCopyC(void* dst, const void* src) { *(MyType*)dst = *(const MyType*)src; }
 static const char* myType2ToStringC(const void* a) { static char buf[32]; snprintf(buf, sizeof buf, "Second[%d]", ((const MyType*)a)->x); return buf; }
@@ -89,12 +89,13 @@ static Str joinIdx(const Vec<int>& v) { Str s; for (size_t i = 0; i < v.size(); 
 // ------------------------------------------------------------------------------------------------ front ends
 struct Outcome {           // what one execution of a scenario looked like from the outside
     Vec<Str> log;          // per completed call: returned value through every legal getter, output bytes
+    Vec<Str> otherHas, otherVal;   // per completed call: what the other mock support (root vs. named scope) answers about return values
     size_t failures; Str firstFailure; Str allText; bool bodyCompleted; size_t callsMade;
     Outcome() : failures(0), bodyCompleted(false), callsMade(0) {}
 };
 struct CallPlan { int fn; int obj; Vec<int> vals; Str dev; int task; bool extra; int scope; bool shortForm; int xget; };   // xget: 0, or one more read of the returned value through getter number xget, whatever the stored type
 struct ExpPlan { int fn; int count; int flags; int obj; Vec<int> vals; int ret; int scope; };      // flags: 1 ignoreOtherParameters, 2 named scope, 4 short form (last parameter not specified, and not passed by its calls)
-struct Scenario { bool strict, ignoreOther, useScope, preFail; int rounds; int type2 /* fn6's object parameter uses a second custom type: same equality function, other to-string */, tol /* 0 none, else index into tolPool for fn3's double parameter */; Vec<ExpPlan> exps; Vec<CallPlan> calls; Vec<Op> data; };
+struct Scenario { bool strict, ignoreOther, useScope, preFail; bool otherVal /* also read a value through the other mock support (known finding C19-support-level-value-of-other-scope) */; int rounds; int type2 /* fn6's object parameter uses a second custom type: same equality function, other to-string */, tol /* 0 none, else index into tolPool for fn3's double parameter */; Vec<ExpPlan> exps; Vec<CallPlan> calls; Vec<Op> data; };
 
 static const char* objType(const Scenario& sc) { return sc.type2 ? "MyType2" : "MyType"; }
 struct Front {
@@ -243,6 +244,11 @@ struct CppFront : public Front {
         }
         if (F.out && F.outTy == T_INT) line += sfmt(" out=%d", outInt);
         if (F.out && F.outTy == T_OBJ) line += sfmt(" out=MyType(%d)", outObj.x);
+        {   // what the OTHER mock support (root when the call went to the scope, the scope otherwise) says about return values: nothing of this call
+            MockSupport& O = (sc.useScope || c.scope) ? mock() : mock("scope1");
+            o.otherHas.push_back(sfmt("%s other has=%d", F.name, (int)O.hasReturnValue()));
+            if (sc.otherVal) o.otherVal.push_back(sfmt("%s other defInt=%d", F.name, O.returnIntValueOrDefault(-77)));
+        }
         {   // the same value through the mock-support level getters of the scope the call was made in
             MockSupport& M = m(sc, c.scope); bool h2 = M.hasReturnValue();
             line += sfmt(" | sup has=%d tag=%s", (int)h2, h2 ? tagName(M.returnValue().getType()).c_str() : "-");
@@ -399,6 +405,11 @@ struct CFront : public Front {
         if (F.out && F.outTy == T_INT) line += sfmt(" out=%d", outInt);
         if (F.out && F.outTy == T_OBJ) line += sfmt(" out=MyType(%d)", outObj.x);
         {
+            MockSupport_c* O = (sc.useScope || c.scope) ? mock_c() : mock_scope_c("scope1");
+            o.otherHas.push_back(sfmt("%s other has=%d", F.name, O->hasReturnValue() ? 1 : 0));
+            if (sc.otherVal) o.otherVal.push_back(sfmt("%s other defInt=%d", F.name, O->returnIntValueOrDefault(-77)));
+        }
+        {
             MockSupport_c* M = m(sc, c.scope); bool h2 = M->hasReturnValue() != 0;
             line += sfmt(" | sup has=%d tag=%s", (int)h2, h2 ? tagNameC(M->returnValue().type).c_str() : "-");
             switch (F.ret) {
@@ -533,7 +544,7 @@ struct Engine : public vf::Engine {
         for (int s = 0; s < nScen; s++) {
             Group G; G.tag = "scenario";
             bool strict = w.chance(1, 4), ignoreOther = w.chance(1, 5), scope = w.chance(1, 5);
-            G.args.push_back(strict); G.args.push_back(ignoreOther); G.args.push_back(scope); G.args.push_back(w.chance(1, cfront ? 6 : 10)); G.args.push_back(cfront && w.chance(1, 6) ? 2 : 1); G.args.push_back(cfront && w.chance(1, 5)); G.args.push_back(cfront && w.chance(1, 5) ? (int64_t)w.range(1, 3) : 0);
+            G.args.push_back(strict); G.args.push_back(ignoreOther); G.args.push_back(scope); G.args.push_back(w.chance(1, cfront ? 6 : 10)); G.args.push_back(cfront && w.chance(1, 6) ? 2 : 1); G.args.push_back(cfront && w.chance(1, 5)); G.args.push_back(cfront && w.chance(1, 5) ? (int64_t)w.range(1, 3) : 0); G.args.push_back(cfront && w.chance(1, 12));
             bool mixedScopes = !strict && !scope && w.chance(1, 4), shortForms = w.chance(1, 5);
             int nFn = (int)w.range(1, 4); int fns[4]; for (int i = 0; i < nFn; i++) fns[i] = (int)w.below(N_FN);
             int nExp = (int)w.small(1, 12);
@@ -612,7 +623,7 @@ struct Engine : public vf::Engine {
 
     // -------------------------------------------------------------------------------------------- model
     static void buildScenario(const Group& G, Scenario& sc) {
-        sc.strict = G.arg(0) != 0; sc.ignoreOther = G.arg(1) != 0; sc.useScope = G.arg(2) != 0; sc.preFail = G.arg(3) != 0; sc.rounds = G.arg(4, 1) == 2 ? 2 : 1; sc.type2 = (int)G.arg(5); sc.tol = (int)(G.arg(6) & 3);
+        sc.strict = G.arg(0) != 0; sc.ignoreOther = G.arg(1) != 0; sc.useScope = G.arg(2) != 0; sc.preFail = G.arg(3) != 0; sc.rounds = G.arg(4, 1) == 2 ? 2 : 1; sc.type2 = (int)G.arg(5); sc.tol = (int)(G.arg(6) & 3); sc.otherVal = G.arg(7) != 0;
         for (size_t i = 0; i < G.ops.size(); i++) {
             const Op& o = G.ops[i];
             if (o.kind == M_EXPECT) { ExpPlan e; e.fn = (int)(o.a % N_FN); e.count = (int)o.b; e.flags = (int)o.c; e.obj = (int)o.d; e.vals = parseIdx(o.s); e.vals.resize((size_t)FNS[e.fn].np, 0); e.ret = atoi(o.s2.c_str()); e.scope = (e.flags & 2) ? 1 : 0; sc.exps.push_back(e); }
@@ -635,7 +646,7 @@ struct Engine : public vf::Engine {
         for (int k = 0; k < F.np; k++) { if (c.dev == sfmt("omit:%d", k)) continue; Passed p; p.name = paramNameFor(F, k, c.dev); p.val = c.vals[(size_t)k] & 7; if (retypeMode(k, c.dev) == 2) p.val = 99; p.ty = F.p[k].ty; if (p.ty == T_BOOL) p.val &= 1; if (p.ty == T_FPTR) p.val &= 3; ps.push_back(p); }
     }
     static int specIndex(const Cls& c, const Str& name) { const Fn& F = FNS[c.fn]; for (int k = 0; k < c.nSpec; k++) if (name == F.p[k].name) return k; return -1; }
-    static bool valueEq(Ty ty, int a, int b) { if (ty == T_BOOL) return (a & 1) == (b & 1); if (ty == T_FPTR) return (a & 3) == (b & 3); return a == b; }
+    static bool valueEq(Ty ty, int a, int b) { if (ty == T_BOOL) return (a & 1) == (b & 1); if (ty == T_FPTR) return (a & 3) == (b & 3); if (ty == T_OBJ && a == 5) return false; /* the custom type's value 5 equals nothing */ return a == b; }
     static bool buildClasses(const Scenario& sc, Vec<Cls>& cls) {
         // returns false when the scenario is outside the property's precondition (ambiguous matching)
         for (size_t i = 0; i < sc.exps.size(); i++) {
@@ -769,7 +780,7 @@ struct Engine : public vf::Engine {
                     continue;
                 }
                 if (scs[i].rounds > 1) { probe("scenario_two_rounds_with_clear"); continue; }
-                { bool xg = false; for (size_t q = 0; q < scs[i].calls.size(); q++) if (scs[i].calls[q].xget) xg = true; if (scs[i].type2 || scs[i].tol) xg = true; if (xg) { probe("scenario_reads_through_other_getter"); continue; } }
+                { bool xg = false; for (size_t q = 0; q < scs[i].calls.size(); q++) if (scs[i].calls[q].xget) xg = true; if (scs[i].type2 || scs[i].tol || scs[i].otherVal) xg = true; if (xg) { probe("scenario_reads_through_other_getter"); continue; } }
                 if (!buildClasses(scs[i], cls)) { probe("scenario_outside_precondition"); continue; }
                 Walk x; model(scs[i], orders[i], cls, x);
                 bool passed = outs[i].failures == 0;
@@ -812,9 +823,18 @@ struct Engine : public vf::Engine {
                 Vec<Outcome> outsC; Vec<Vec<std::pair<Str, Str> > > failsC;
                 runOnce(scs, orders, cfr, outsC, failsC);
                 for (size_t i = 0; i < scs.size(); i++) {
+                    if (scs[i].otherVal) {      // a value was read through the other mock support: every difference of such a scenario is filed under that one oracle (known finding)
+                        bool diff = outs[i].failures != outsC[i].failures || outs[i].firstFailure != outsC[i].firstFailure || outs[i].otherVal.size() != outsC[i].otherVal.size();
+                        for (size_t q = 0; !diff && q < outs[i].otherVal.size(); q++) if (outs[i].otherVal[q] != outsC[i].otherVal[q]) diff = true;
+                        if (diff) r.fail("C19", "other_scope_return_value", sfmt("scenario %zu: the value read through the mock support that did not make the last call differs (or fails the test) between C++ and C: %zu / %zu failures; C++ %s | C %s", i, outs[i].failures, outsC[i].failures, Json::S(firstLine(outs[i].firstFailure)).dump().c_str(), Json::S(firstLine(outsC[i].firstFailure)).dump().c_str()));
+                        probe("scenario_reads_value_through_other_support");
+                        continue;
+                    }
                     if (outs[i].failures != outsC[i].failures) { r.fail("C19", "verdict", sg("what", outs[i].failures < outsC[i].failures ? "C fails more" : "C++ fails more"), sfmt("scenario %zu: %zu failures through C++, %zu through C; C++: %s | C: %s", i, outs[i].failures, outsC[i].failures, Json::S(firstLine(outs[i].firstFailure)).dump().c_str(), Json::S(firstLine(outsC[i].firstFailure)).dump().c_str())); continue; }
                     if (outs[i].firstFailure != outsC[i].firstFailure) r.fail("C19", "failure_text", sfmt("scenario %zu: C++ says %s, C says %s", i, Json::S(outs[i].firstFailure.substr(0, 300)).dump().c_str(), Json::S(outsC[i].firstFailure.substr(0, 300)).dump().c_str()));
                     if (outs[i].log.size() != outsC[i].log.size()) { r.fail("C19", "calls_completed", sfmt("scenario %zu: %zu calls completed through C++, %zu through C", i, outs[i].log.size(), outsC[i].log.size())); continue; }
+                    for (size_t q = 0; q < outs[i].otherHas.size() && q < outsC[i].otherHas.size(); q++) if (outs[i].otherHas[q] != outsC[i].otherHas[q]) {
+                        r.fail("C19", "other_scope_has_return_value", sfmt("scenario %zu call %zu: C++ [%s]  C [%s]", i, q, outs[i].otherHas[q].c_str(), outsC[i].otherHas[q].c_str())); break; }
                     for (size_t q = 0; q < outs[i].log.size(); q++) if (outs[i].log[q] != outsC[i].log[q]) {
                         Str fnn = outs[i].log[q].substr(0, outs[i].log[q].find(' '));
                         r.fail("C19", "returned_values", sg("fn", fnn.c_str()), sfmt("scenario %zu call %zu: C++ [%s]  C [%s]", i, q, outs[i].log[q].c_str(), outsC[i].log[q].c_str())); break;
